@@ -7,7 +7,7 @@ COPY (SELECT ...) TO."""
 import os
 import random
 
-from common import Report, Violation, parallel_map, h, run_sentinels, scratch_dir, rm
+from common import Report, Violation, parallel_map, h, run_sentinels, scratch_dir, rm, panic_site
 from sqlcase import RL, ms
 
 TYPES = ["INT", "BIGINT", "SMALLINT", "BOOLEAN", "VARCHAR", "DOUBLE", "DECIMAL(12,3)", "DATE", "TIMESTAMP",
@@ -111,6 +111,14 @@ def run_case(args):
         srcsql = "(select * from t)" if use_query else "t"
         if use_query:
             res["feats"].add("copy-query")
+        if not fixed and rng.random() < 0.3 and n > 0:
+            # the target path already holds a longer export (same options): the new export must
+            # replace it, not overwrite its beginning
+            res["feats"].add("re-export-over-longer-file")
+            rl.sql(f"create table s({cols})")
+            rl.sql("insert into s select * from t")
+            rl.sql("insert into s select * from t")
+            rl.sql(f"copy s to '{f}'{optsql}")
         q1 = f"copy {srcsql} to '{f}'{optsql}"
         r = rl.sql(q1)
         tag = f"types={types} delim={delim!r} quote={quote!r} header={header}"
@@ -149,7 +157,7 @@ def run_case(args):
 def err_type(r, types):
     """Signature component for an import/export failure: the panic site or a coarse error class."""
     if r.get("panics"):
-        return r["panics"][0].split("|")[0].replace("/repo/", "")
+        return panic_site(r["panics"][0])
     import re
     return re.sub(r"[0-9]+", "N", r.get("err", ""))[:40]
 
